@@ -813,7 +813,12 @@ type UDPConn struct {
 	ClosedAt time.Duration
 	Sent, Recv int
 	Dropped int
+	readErrs int // injected transient (non-timeout) read errors
 }
+
+// InjectReadError makes the next ReadFrom fail once with a non-timeout error (ECONNREFUSED, as
+// after an ICMP port-unreachable).
+func (u *UDPConn) InjectReadError() { u.readErrs++ }
 
 func (u *UDPConn) Name() string { return fmt.Sprintf("u%d", u.ID) }
 func (u *UDPConn) IsClosed() bool { return u.closed }
@@ -919,7 +924,7 @@ func (u *UDPConn) ReadFromUDP(b []byte) (int, *net.UDPAddr, error) {
 		return 0, nil, opErr("read", "udp", u.local, nil, net.ErrClosed)
 	}
 	vrt.WaitUntilOr("udp.readfrom", u,
-		func() bool { return len(u.q) > 0 || u.closed },
+		func() bool { return len(u.q) > 0 || u.closed || u.readErrs > 0 },
 		func() time.Time { return u.rdl })
 	if vrt.Aborting() {
 		return 0, nil, net.ErrClosed
@@ -928,6 +933,9 @@ func (u *UDPConn) ReadFromUDP(b []byte) (int, *net.UDPAddr, error) {
 	switch {
 	case u.closed:
 		return 0, nil, opErr("read", "udp", u.local, nil, net.ErrClosed)
+	case u.readErrs > 0 && (u.rdl.IsZero() || u.rdl.After(now)):
+		u.readErrs--
+		return 0, nil, opErr("read", "udp", u.local, nil, os.NewSyscallError("recvfrom", syscall.ECONNREFUSED))
 	case !u.rdl.IsZero() && !u.rdl.After(now):
 		return 0, nil, opErr("read", "udp", u.local, nil, timeoutErr{})
 	}
